@@ -470,11 +470,17 @@ func (s *state) walkUseNode(node *parse.UseNode, extending bool) error {
 		return err
 	}
 	blocks := tree.Blocks()
+	// look every alias up before any is added: "with a as b, b as c" makes c the
+	// used template's b, whatever order the aliases come in
+	aliased := make(map[string]*parse.BlockNode, len(node.Aliases))
 	for orig, alias := range node.Aliases {
 		v, ok := blocks[orig]
 		if !ok {
 			return errors.New("Unable to locate block with name \"" + orig + "\"")
 		}
+		aliased[alias] = v
+	}
+	for alias, v := range aliased {
 		blocks[alias] = v
 	}
 	if !extending {
